@@ -54,6 +54,9 @@ CHECKS["C01"] = ("property-based testing (proptest) against closed-form exact so
 CHECKS["C02"] = ("property-based testing (proptest) + exhaustive rooted-tree enumeration: Butcher weights extracted from the compiled steppers with a unit-vector right-hand side; local-error slopes; Pade approximant; polynomial quadrature; step-count scaling",
          "The stage weights the explicit steppers actually apply (one step, a clipped step, two consecutive steps, dense output on/off, generated x0 and h = +-2^k) are extracted exactly and checked against every rooted-tree order condition up to p (200 trees for DOP853); Radau is checked against the (2,3) Pade approximant over generated complex z; the embedded estimators through exact polynomial quadrature and tolerance scaling.",
          "Assumes the documented stage evaluation order; slope thresholds calibrated on the repaired tree.", "DESIGN.md §4 C02")
+CHECKS["C07"] = ("property-based testing (proptest) against exact solutions: convergence slope of the step interpolant's max-over-theta error; interior samples of full runs vs neighbouring step ends",
+         "Single steps from exact data with the interpolant probed on a theta grid under five refinements give the interpolation order; full runs of all six methods on general closed-form problems compare Solution::sol at generated interior positions of every step with the exact solution relative to the step-end errors.",
+         "Slope thresholds calibrated on the repaired tree; steps with h*rate > 1 skipped in the full-run clause.", "DESIGN.md §4 C07")
 PENDING = {}
 
 def main():
